@@ -132,6 +132,18 @@ Definition world_cache_timeout (now : Z) (ci : nat) (w : world) : world * list e
 
 Definition is_any (b : browser) : bool := browser_any (b_type b).
 
+(* which records of a response the first loop of onMessageReceived keeps: (cacheRecord, name to re-evaluate, browse-PTR target) *)
+Definition classify (b : browser) (r : record) : bool * option bstr * option bstr :=
+  let any := is_any b in
+  if (r_type r =? T_PTR)%N then
+    if browser_ptr_browse any r (b_type b) then (true, None, Some (r_target r))
+    else if browser_ptr_type any r (b_type b) then (true, Some (r_target r), None)
+    else (false, None, None)
+  else if (r_type r =? T_SRV)%N || (r_type r =? T_TXT)%N then
+    if browser_srvtxt any r (b_type b) then (true, Some (r_name r), None)
+    else (false, None, None)
+  else (false, None, None).
+
 (* first loop of onMessageReceived for browser j: filter by type, remember names, cache *)
 Fixpoint browser_cache_records (now : Z) (j : nat) (rs : list record) (names : list bytes) (nulls : bool) (w : world)
   : world * list bytes * bool * list eff :=
@@ -143,15 +155,7 @@ Fixpoint browser_cache_records (now : Z) (j : nat) (rs : list record) (names : l
       | Some b =>
           let any := is_any b in
           (* (cacheRecord, name to re-evaluate, browse-PTR target) *)
-          let '(keep, upd, tgt) :=
-            if (r_type r =? T_PTR)%N then
-              if browser_ptr_browse any r (b_type b) then (true, None, Some (r_target r))
-              else if browser_ptr_type any r (b_type b) then (true, Some (r_target r), None)
-              else (false, None, None)
-            else if (r_type r =? T_SRV)%N || (r_type r =? T_TXT)%N then
-              if browser_srvtxt any r (b_type b) then (true, Some (r_name r), None)
-              else (false, None, None)
-            else (false, None, None) in
+          let '(keep, upd, tgt) := classify b r in
           let '(w1, e1) :=
             match tgt with
             | Some t =>
